@@ -427,6 +427,37 @@ example : trMut false (some (.set, [[1], [2]])) (.set [1] [2]) true [.flush, .de
     trFwd (some (.get, [[1]])) (.get [1]) [.flush, .debug 17 true, .flush, .debug 255 false] = [.call (.get [1])] := by
   decide
 
+/-- `byteutils.ReadAvailableBytesToBuffer` (offsets inside the slices): the target keeps its length, the bytes before
+the offset and behind the copied range are untouched, the copied range holds the source bytes from its offset on, and
+the result is the smaller of the two remaining lengths. -/
+theorem C04_readAvailable (target source : Bytes) (tOff sOff sLen : Nat) (ht : tOff ≤ target.length)
+    (hs : sLen ≤ source.length) :
+    let r := readAvailable target tOff source sOff sLen
+    r.2 = min (sLen - sOff) (target.length - tOff) ∧ r.1.length = target.length ∧
+    r.1.take tOff = target.take tOff ∧ r.1.drop (tOff + r.2) = target.drop (tOff + r.2) ∧
+    (r.1.drop tOff).take r.2 = (source.drop sOff).take r.2 := by
+  have hn : min (sLen - sOff) (target.length - tOff) ≤ (source.drop sOff).length := by
+    simp only [List.length_drop]; omega
+  have hl : ((source.drop sOff).take (min (sLen - sOff) (target.length - tOff))).length =
+      min (sLen - sOff) (target.length - tOff) := by
+    rw [List.length_take]; omega
+  have hlt : (target.take tOff).length = tOff := by rw [List.length_take]; omega
+  refine ⟨rfl, ?_, ?_, ?_, ?_⟩
+  · simp only [readAvailable, List.length_append, hl, hlt, List.length_drop]; omega
+  · simp only [readAvailable, List.append_assoc]
+    rw [List.take_append_of_le_length (by omega), List.take_take]; simp
+  · simp only [readAvailable]
+    rw [List.drop_append_of_le_length (by simp only [List.length_append, hl, hlt]; omega)]
+    have : (target.take tOff ++ (source.drop sOff).take (min (sLen - sOff) (target.length - tOff))).length =
+        tOff + min (sLen - sOff) (target.length - tOff) := by simp only [List.length_append, hl, hlt]
+    rw [List.drop_of_length_le (by omega)]; simp
+  · simp only [readAvailable, List.append_assoc]
+    rw [List.drop_append_of_le_length (by omega), List.drop_of_length_le (by omega), List.nil_append,
+      List.take_append_of_le_length (by omega), List.take_of_length_le (by omega)]
+
+/-- The hypotheses of `C04_readAvailable` hold e.g. for a 4-byte target at offset 1 and 3 source bytes from offset 1. -/
+example : readAvailable [9, 9, 9, 9] 1 [1, 2, 3] 1 3 = ([9, 2, 3, 9], 2) := by decide
+
 /-! ## the private-copy clause: the store with memory (`Hive/Model/KVHeap.lean`) -/
 
 section PrivateCopies
